@@ -249,18 +249,24 @@ type utils.ReadersCb(streams) returns (err)
   modifies *
   modifies ghost(cbLen, cbErr, cbNode, cbStop, cbRet, cbLineNo, cbLine, cbHeader, cbElems, cbNElems, scRd, scPos, privLo, evOf, accKey, accP, accN, accH, bufSink, bufSticky, sinkFailed, sinkPend, prLen, prSink, prArg, prArgs, csvLen, csvW, csvN, csvRow, tnodes, tdepth, tmax, tmapOf, jlen, tvLen, tv, tseg, tvSet, adLen, adName, adVal, adSep, adRoot, lastOpen)
 
+// wfrRan: 1 once WithFileReaders has handed the opened files to its callback (0 before)
+ghost wfrRan int
 func NewCmdUtils$1 returns (err)
   props C08 C10 C16
   requires @cb cb != nil
   funcparam cb utils.ReadersCb
   modifies *
-  modifies ghost(cbLen, cbErr, cbNode, cbStop, cbRet, cbLineNo, cbLine, cbHeader, cbElems, cbNElems, scRd, scPos, privLo, evOf, accKey, accP, accN, accH, bufSink, bufSticky, sinkFailed, sinkPend, prLen, prSink, prArg, prArgs, csvLen, csvW, csvN, csvRow, tnodes, tdepth, tmax, tmapOf, jlen, tvLen, tv, tseg, tvSet, adLen, adName, adVal, adSep, adRoot, lastOpen)
+  modifies ghost(cbLen, cbErr, cbNode, cbStop, cbRet, cbLineNo, cbLine, cbHeader, cbElems, cbNElems, scRd, scPos, privLo, evOf, accKey, accP, accN, accH, bufSink, bufSticky, sinkFailed, sinkPend, prLen, prSink, prArg, prArgs, csvLen, csvW, csvN, csvRow, tnodes, tdepth, tmax, tmapOf, jlen, tvLen, tv, tseg, tvSet, adLen, adName, adVal, adSep, adRoot, lastOpen, wfrRan)
+  // a file that cannot be opened is an ERROR: the callback is not run and nil is not returned (C10)
+  ghost at entry { set wfrRan := 0 }
+  ensures @unopenable-is-an-error [C10 C16] wfrRan == 0 ==> err != nil
   loop 1 {
     invariant @opened len(result) == len(fileNames) && fresh(arr(result)) && fileNames == old(fileNames) && cb == old(cb)
     invariant @non-nil forall j int :: {result[j]} 0 <= j && j < #i ==> result[j] != nil && payload(result[j]) != 0
     // an empty name (--no-database) stands for an empty input: no lines, never fails (C16)
     invariant @empty-name forall j int :: {result[j]} 0 <= j && j < #i && fileNames[j] == "" ==> RdN(payload(result[j])) == 0 && !RdFailed(payload(result[j]))
   }
+  ghost before dyncall 1 { set wfrRan := 1 }
   ghost before dyncall 1 { assert @empty-name-empty-input [C16] forall j int :: {result[j]} 0 <= j && j < len(fileNames) && fileNames[j] == "" ==> RdN(payload(result[j])) == 0 && !RdFailed(payload(result[j])) }
 
 // ---------------------------------------------------------------------------------------------
